@@ -29,7 +29,10 @@ def main() -> int:
         print(json.dumps({"id": f"{pid}-{label}", "error": "patch does not apply"}))
         shutil.rmtree(work, ignore_errors=True)
         return 2
-    env = dict(os.environ, TOPSEARCH_REPO=str(copy))
+    # private copies of the Lean project and the evidence directory: several patches can be evaluated side by side
+    subprocess.run(f"rsync -a {V / 'lean'}/ {work / 'lean'}/", shell=True, check=True)
+    (work / "evidence" / "replay").mkdir(parents=True)
+    env = dict(os.environ, TOPSEARCH_REPO=str(copy), VERIF_LEAN_DIR=str(work / "lean"), VERIF_EVIDENCE_DIR=str(work / "evidence"))
     r = subprocess.run(["./check", pid, "--tier", "quick"], cwd=V, env=env, capture_output=True, text=True, timeout=6000)
     out = r.stdout + r.stderr
     lines = [l for l in out.splitlines() if l.startswith("VIOLATION") or l.startswith("  ") or "tier=" in l]
@@ -37,7 +40,6 @@ def main() -> int:
     nfi = [l for l in lines if l.startswith("VIOLATION") and "no-failing-input-found" in l]
     res = {"id": f"{pid}-{label}", "rc": r.returncode, "concrete_violations": len(concrete), "no_failing_input_found": len(nfi),
            "source_drift_noted": "source drift" in out, "detail": [l[:260] for l in lines[:5]]}
-    subprocess.run(["./check", pid, "--tier", "quick"], cwd=V, capture_output=True, text=True, timeout=3000)   # restore Gen
     shutil.rmtree(work, ignore_errors=True)
     print(json.dumps(res))
     return 0
